@@ -134,10 +134,13 @@ CHECKS = {
              '(PMV.Freeze, with an iff-specification) proves that with the flags cleared every binding of every namespace, at any depth '
              'and on whatever kind of node, is frozen — the premise of that theorem. Ties: generated pipeline table; the assigner '
              'correspondence of C03; the freeze model against the real functions on the node / namespace / binding trees of generated programs. '
-             'Taint detection itself (which programs set module.tainted) is decided by an oracle on the real code: trigger x position x '
+             'The name part of taint detection is modelled on the resolver model of C03 (tainted exactly when a lookup of exec / eval / locals / '
+             'globals / vars finds no binding on Python\'s lookup path; tainted_by_names_iff) and compared with the real module.tainted over the '
+             'lookups resolve_names makes. End to end, taint detection is decided by an oracle on the real code: trigger x position x '
              'program enumeration, the output tree must be identical to the input tree; a control group with shadowed trigger names '
              'must still be renamed.',
-        note='PARTIAL: resolve_names/bind_names taint detection is not modelled in Lean. Trusted: extract_pipeline (scrapes minify()), '
+        note='PARTIAL: the syntactic taint sources (star imports, timeit, the only-declared rule) are read by the harness, not modelled; a bound '
+             'trigger name that is the builtin at run time (F29a-d) escapes any static rule. Trusted: extract_pipeline (scrapes minify()), tools/taint_corr.py, '
              'the oracle in tools/props/c09.py.',
         technique='Lean 4 proof (decide on the generated pipeline table + pinned-bindings theorem) + real-code identity oracle over trigger/position enumeration',
         ref='§6 C09'),
